@@ -49,7 +49,7 @@ func Check() *core.Check {
 			if tier == "thorough" {
 				return 8000
 			}
-			return 600
+			return 480
 		},
 		MinConclusive: func(tier string) int { return 200 },
 		NumPinned:     len(pinned),
